@@ -607,8 +607,12 @@ class CallMixin:
                 return join(el, d) if not el.is_bottom else d
             if name == "pop":
                 mut()
-                if a1 is None and t2:
+                rn = recv_node.id if isinstance(recv_node, ast.Name) else None
+                known = a0 is not None and rn is not None and (a0.kof == rn or (a0.has_const and (rn, a0.const_value()) in (env.get("$keys") or ())))
+                if a1 is None and t2 and not known:
                     self.raise_exc(frame, "KeyError", node, env, True, reason="dict.pop without default on input mapping")
+                if rn is not None and env.get("$keys"):
+                    env["$keys"] = frozenset(f for f in env["$keys"] if f[0] != rn)
                 upd(replace(recv, nonempty=False))
                 return join(el, a1) if a1 is not None else (el if not el.is_bottom else ANY)
             if name == "setdefault":
@@ -688,7 +692,11 @@ class CallMixin:
         obj, nm = args[0], args[1]
         default = args[2] if len(args) > 2 else None
         names = None
-        if nm.has_const and isinstance(nm.const_value(), str):
+        tg = self.config.get("getattr_targets") or {}
+        site = (frame.func.qualname, norm(node))
+        if site in tg:
+            names = list(tg[site])
+        elif nm.has_const and isinstance(nm.const_value(), str):
             names = [nm.const_value()]
         elif nm.cset() and all(c[0] == "c" and isinstance(c[1], str) for c in nm.cset()):
             names = sorted(c[1] for c in nm.cset())
